@@ -131,6 +131,7 @@ type CR3Parts struct {
 	Preview                []byte // JPEG bytes of the PRVW box (nil = absent)
 	PrvwW, PrvwH           uint16
 	CTBOOver               int // declared CTBO item count exceeds the items present by this much (malformed variant)
+	TopNoise               int // sprinkle unknown / opaque boxes between the top-level boxes too
 }
 
 // CR3 is a generated file and its ground truth.
@@ -246,6 +247,25 @@ func BuildCR3(r *core.Rng, p CR3Parts, noise int, large64 bool) CR3 {
 		top = append(top, pv)
 	}
 	top = append(top, &Box{Type: "mdat", Payload: r.Bytes(r.Range(64, 2000)), Large: large64 && r.Bool(), Tag: "mdat"})
+	if p.TopNoise > 0 {
+		var t2 []*Box
+		for i, b := range top {
+			if i > 0 {
+				for r.Chance(p.TopNoise, p.TopNoise+3) {
+					nb := noiseBox()
+					if r.Bool() {
+						nb.Type = r.PickStr("free", "skip", "wide", "abcd", "uuid")
+						if nb.Type == "uuid" {
+							nb.UUID = r.Bytes(16)
+						}
+					}
+					t2 = append(t2, nb)
+				}
+			}
+			t2 = append(t2, b)
+		}
+		top = t2
+	}
 	var out []byte
 	for _, b := range top {
 		out = b.Serialise(out)
